@@ -280,6 +280,14 @@ def gen_case(ctx):
         for _ in range(rng.randint(1, 4)):
             i = rng.randrange(len(pts))
             moves.append([i, [pts[i][a] + (rng.uniform(-0.2, 0.2) * side if (kind == "hex" or a < 2) else 0.0) for a in range(3)]])
+        if kind == "quad" and rng.random() < 0.5:
+            # the whole (planar) grid is turned out of its plane, junction by junction
+            cur = {i: list(p) for i, p in enumerate(pts)}
+            for i, p in moves:
+                cur[i] = p
+            c0 = np.mean(np.array(list(cur.values())), axis=0)
+            ax, ang = geom.rand_unit(rng), rng.uniform(0.4, 2.6)
+            moves = moves + [[i, [float(x) for x in geom.rotate(cur[i], ax, ang, c0)]] for i in sorted(cur)]
         return {"mode": "history-update", "kind": kind, "points": pts, "cells": [list(c) for c in cells], "moves": moves,
                 "container": rng.choice(["float-array", "nested-list"])}
     if u < 0.12:
